@@ -99,10 +99,21 @@ func (d *DurationStats) Record(nanoseconds int64) {
 	d.running.Add(nanoseconds)
 }
 
-func (d *DurationStats) CollectLifetime() (IterationDurationsSnapshot, IterationDurationsSnapshot) {
-	running := d.running.Snapshot()
-	d.lifetime.Update(&d.running)
-	d.running.Reset()
+// collect moves the recorded values out of i with atomic swaps, so a concurrent Add
+// is either part of the returned values or stays in i for the next collection.
+func (i *IterationDurations) collect() *IterationDurations {
+	collected := &IterationDurations{}
+	collected.sum.Store(i.sum.Swap(0))
+	collected.count.Store(i.count.Swap(0))
+	collected.max.Store(i.max.Swap(0))
+	collected.min.Store(i.min.Swap(0))
 
-	return running, d.lifetime.Snapshot()
+	return collected
+}
+
+func (d *DurationStats) CollectLifetime() (IterationDurationsSnapshot, IterationDurationsSnapshot) {
+	running := d.running.collect()
+	d.lifetime.Update(running)
+
+	return running.Snapshot(), d.lifetime.Snapshot()
 }
